@@ -495,7 +495,7 @@ class DrawCircuitSVG:
         Add a barrier which will separate different parts of the circuit. This
         is applied to the provided modes.
         """
-        max_loc = max(self.x_locations[m] for m in spec.modes)
+        max_loc = max((self.x_locations[m] for m in spec.modes), default=0)
         for m in spec.modes:
             loc = self.x_locations[m]
             if loc < max_loc:
